@@ -4,6 +4,7 @@ package checks
 
 import (
 	"context"
+	"errors"
 	"fmt"
 	"sort"
 	"strings"
@@ -11,6 +12,7 @@ import (
 
 	"github.com/vipnode/vipnode/v2/internal/verif/vh"
 	"github.com/vipnode/vipnode/v2/internal/verif/vsched"
+	"github.com/vipnode/vipnode/v2/jsonrpc2"
 	"github.com/vipnode/vipnode/v2/pool"
 	"github.com/vipnode/vipnode/v2/pool/store"
 )
@@ -285,11 +287,15 @@ func c08Populations(driver string, maxPop, shard, nshards int) vh.Unit {
 						x /= 3
 					}
 					for _, reqHost := range []bool{false, true} {
-						for _, kind := range []string{"", "geth", "parity"} {
+						// "besu": a kind the pool does not know; "Geth": a known kind spelled differently
+						for _, kind := range []string{"", "geth", "parity", "besu", "Geth"} {
 							for _, k := range []int{-3, -1, 0, 1, 2, 5} {
 								for _, max := range []int{0, 1, 2} {
 									for _, legacy := range []bool{false, true} {
 										if legacy && (reqHost || k < 0 || k == 5 || max == 1) {
+											continue
+										}
+										if (kind == "besu" || kind == "Geth") && (k < 1 || k == 2 || max == 1 || reqHost) {
 											continue
 										}
 										idx++
@@ -407,6 +413,141 @@ func c08Orders(driver string, modes []int, k, bound int) vh.Unit {
 	}}
 }
 
+// hosts behind real connections: every host is a real jsonrpc2.Remote pair over an in-memory wire,
+// its agent side answering vipnode_whitelist with a result, with a JSON-RPC error, or not at all.
+// (The fake hosts above return Go errors directly; a refusal that travels as an error *reply*
+// takes the path through the reply decoding.)
+type C08Agent struct {
+	mode    int
+	arrived []string
+}
+
+func (a *C08Agent) Whitelist(ctx context.Context, nodeID string) error {
+	a.arrived = append(a.arrived, nodeID)
+	switch a.mode {
+	case vh.HostErr:
+		return errors.New("whitelist refused by the host's node")
+	case vh.HostSilent:
+		vsched.Recv(make(chan struct{})) // never answers
+	}
+	return nil
+}
+
+func c08RPCHosts(driver string) vh.Unit {
+	name := "rpc-hosts/" + driver
+	return vh.Unit{Name: name, Run: func(u *vh.U) {
+		ids := vh.Identities()
+		for nHosts := 1; nHosts <= 3; nHosts++ {
+			nb := 1
+			for i := 0; i < nHosts; i++ {
+				nb *= 3
+			}
+			for b := 0; b < nb; b++ {
+				for _, k := range []int{1, 3} {
+					for _, legacy := range []bool{false, true} {
+						if u.Expired() {
+							return
+						}
+						modes := make([]int, nHosts)
+						x := b
+						for i := range modes {
+							modes[i] = x % 3
+							x /= 3
+						}
+						var hosts []string
+						var err error
+						agents := make([]*C08Agent, nHosts)
+						s := vsched.Run(vsched.Options{MaxTime: time.Hour, Drain: true}, func() {
+							pw := vh.NewPoolWorld(vh.PoolConfig{Driver: driver, NoManager: true})
+							req := ids[0]
+							pw.Raw.SetNode(store.Node{ID: store.NodeID(req.NodeID), Kind: "geth", LastSeen: vsched.Now()})
+							for i := 0; i < nHosts; i++ {
+								ca, cb := vh.NewMemPipe(8)
+								poolSide := &jsonrpc2.Remote{Codec: ca, Client: &jsonrpc2.Client{}, Server: &jsonrpc2.Server{}}
+								hostSide := &jsonrpc2.Remote{Codec: cb, Client: &jsonrpc2.Client{}, Server: &jsonrpc2.Server{}}
+								agents[i] = &C08Agent{mode: modes[i]}
+								if e := hostSide.Server.RegisterMethod("vipnode_whitelist", agents[i], "Whitelist"); e != nil {
+									panic(e)
+								}
+								vsched.GoNamed("pool-serve", func() { poolSide.Serve() })
+								vsched.GoNamed("host-serve", func() { hostSide.Serve() })
+								if _, e := pw.Connect(ids[1+i], vh.ConnectOpts{Host: true, Kind: "geth", Service: poolSide}); e != nil {
+									panic(e)
+								}
+							}
+							if legacy {
+								r := pool.ClientRequest{Kind: "geth", NumHosts: k}
+								n := vsched.Now().UnixNano() + 77
+								resp, e := pw.Pool.Client(context.Background(), req.SignNode("vipnode_client", n, r), req.NodeID, n, r)
+								err = e
+								if resp != nil {
+									for _, h := range resp.Hosts {
+										hosts = append(hosts, string(h.ID))
+									}
+								}
+							} else {
+								resp, e := pw.Peer(context.Background(), req, k, "geth")
+								err = e
+								if resp != nil {
+									for _, h := range resp.Peers {
+										hosts = append(hosts, string(h.ID))
+									}
+								}
+							}
+						})
+						u.R.Evaluations++
+						u.R.States++
+						u.R.Transitions += int64(len(s.Trace))
+						u.R.Traces++
+						u.Observe(fmt.Sprintf("%v k=%d -> %d err=%v", modes, k, len(hosts), err != nil))
+						desc := fmt.Sprintf("%d hosts on real connections answering %v (0 ack, 1 error reply, 2 silent), request for %d (legacy=%v)", nHosts, modes, k, legacy)
+						if s.Panic != nil {
+							u.Violate("peers/panic", fmt.Sprintf("%s: %v", desc, s.Panic), nil)
+							continue
+						}
+						if s.Deadlock || s.Horizon {
+							u.Violate("peers/deadlock", fmt.Sprintf("%s: the request never returned; threads %v", desc, s.Blocked), nil)
+							continue
+						}
+						nAck := 0
+						for i, h := range ids[1 : 1+nHosts] {
+							returned := false
+							for _, x := range hosts {
+								if x == h.NodeID {
+									returned = true
+								}
+							}
+							if modes[i] == vh.HostAck {
+								nAck++
+							}
+							if returned && modes[i] != vh.HostAck {
+								u.Violate("peers/returned-host-that-did-not-ack", fmt.Sprintf("%s: host %d was returned (reply %v err=%v)", desc, i, shortAll(hosts), err), nil)
+							}
+							if returned && len(agents[i].arrived) == 0 {
+								u.Violate("peers/returned-before-ack", fmt.Sprintf("%s: host %d was returned without having received vipnode_whitelist", desc, i), nil)
+							}
+						}
+						want := nAck
+						if k < want {
+							want = k
+						}
+						if nAck == nHosts && len(hosts) != want {
+							u.Violate("peers/fewer-than-available", fmt.Sprintf("%s: %d hosts returned, expected %d (err=%v)", desc, len(hosts), want, err), nil)
+						}
+						if len(hosts) > k {
+							u.Violate("peers/more-than-requested", fmt.Sprintf("%s: %d hosts returned", desc, len(hosts)), nil)
+						}
+						if err != nil && len(hosts) > 0 {
+							u.Violate("peers/error-with-hosts", fmt.Sprintf("%s: %v with %v", desc, err, shortAll(hosts)), nil)
+						}
+					}
+				}
+			}
+		}
+		u.Sample("1-3 hosts, each a real Remote pair over an in-memory wire, whitelist answered by result / error reply / silence")
+	}}
+}
+
 func init() {
 	vh.Register(&vh.Check{
 		ID: "C08", Level: "model_checking",
@@ -438,6 +579,7 @@ func init() {
 			}
 			us = append(us, c08Orders(vh.Memory, []int{A, A}, 5, bound+1), c08Orders(vh.Memory, []int{A, S}, 5, bound+1))
 			us = append(us, c08Orders(vh.Badger, []int{A, S, A}, 2, bound))
+			us = append(us, c08RPCHosts(vh.Memory))
 			return us
 		},
 	})
